@@ -73,6 +73,24 @@ MUTANTS = [
     {"id": "c08-reset-cache-skips-stocks", "property": "C08", "file": M,
      "old": "        for equation in self.memo:\n            self.memo[equation] = {}",
      "new": "        for equation in self.memo:\n            if equation not in self.stocks:\n                self.memo[equation] = {}"},
+    # ---- C14
+    {"id": "c14-count-per-state-by-position", "property": "C14", "file": M,
+     "old": "            if self.agent(agent_id).state == state:", "new": "            if self.agents[agent_id].state == state:"},
+    {"id": "c14-reset-resets-id-counter", "property": "C14", "file": M,
+     "old": "        self.agents = []\n\n        self.data_collector.agent_statistics = {}", "new": "        self.agents = []\n        self.next_agent_id = 0\n\n        self.data_collector.agent_statistics = {}"},
+    {"id": "c14-delete-keeps-type-map", "property": "C14", "file": M,
+     "old": "        for agent_type in agent_types:\n            self.agent_type_map[agent_type]=[]\n", "new": "        for agent_type in []:\n            self.agent_type_map[agent_type]=[]\n"},
+    {"id": "c14-configure-keeps-type-map", "property": "C14", "file": M,
+     "old": "        for agent_type in self.agent_type_map:\n            self.agent_type_map[agent_type] = []\n\n        self.agents = []\n        \n        for agent in config:",
+     "new": "        self.agents = []\n        \n        for agent in config:"},
+    {"id": "c14-agent-lookup-by-position", "property": "C14", "file": M,
+     "old": "        for agent in self.agents:\n            if agent.id==agent_id:\n                return agent\n\n        return None",
+     "new": "        if 0 <= agent_id < len(self.agents):\n            return self.agents[agent_id]\n\n        return None"},
+    {"id": "c14-delete-rebuilds-only-first-type", "property": "C14", "file": M,
+     "old": "        for agent_type in agent_types:\n            self.agent_type_map[agent_type]=[]\n", "new": "        for agent_type in agent_types[:1]:\n            self.agent_type_map[agent_type]=[]\n"},
+    {"id": "c14-next-agent-ignores-type", "property": "C14", "file": M,
+     "old": "            if agent.agent_type == agent_type and agent.state == state:\n                return agent",
+     "new": "            if agent.state == state:\n                return agent"},
     # ---- C19
     {"id": "c19-state-not-deepcopied", "property": "C19", "file": S,
      "old": "        session_state = copy.deepcopy(instance['instance'].session_state)\n",
